@@ -322,6 +322,10 @@ Family(const std::string &f)
     gen(2, std::min(kCap, 3), "H G P G", false);
   } else if (f == "over") {  // oversubscribed by one and two
     gen(kCap + 1, kCap + 2, "G H P G", false);
+  } else if (f == "over1") {
+    gen(kCap + 1, kCap + 1, "G H P G", false);
+  } else if (f == "reuse1") {  // a small first wave, then a fresh wave of `capacity` threads
+    gen(1, 2, "G H P G", true);
   } else if (f == "reuse") {  // first wave then a fresh wave of `capacity` threads
     gen(1, std::min(kCap + 1, 3), "G H P G", true);
     if (kCap <= 2) gen(kCap + 2, kCap + 2, "G H G", true);
